@@ -292,10 +292,13 @@ def _run(ctx, cuqi, M, thorough, rng, ckpath):
         xs = list(xs)
         return ",".join(xs) if xs else "_"
 
-    def gen_program():
+    def gen_program(api=False):
         ops, saved = [], False
         for _ in range(rng.randint(3, 9)):
             r = rng.random()
+            if api and rng.random() < 0.15:
+                ops.append(rng.choice(["init", "init", "loadtype", "loadpart"]))
+                continue
             if r < 0.30:
                 if rng.random() < 0.35:
                     ops.append(("b", rng.randint(0, 7), rng.choice([1, 1, 2, 3, 4, 9])))
@@ -352,6 +355,30 @@ def _run(ctx, cuqi, M, thorough, rng, ckpath):
                         out.append("refused")
                 elif op == "reinit":
                     s.reinitialize()
+                elif op == "init":
+                    try:
+                        s.initialize()
+                        out.append("ok")
+                    except ValueError as e:
+                        out.append("E:already" if "already initialized" in str(e) else "E:unset" if "is not set after initialization" in str(e) else "E:?" + str(e)[:40])
+                elif op in ("loadtype", "loadpart"):
+                    import pickle
+                    bad = ckpath + ".bad"
+                    st_ = ({"metadata": {"sampler_type": "SomeOtherSampler"}, "state": {"current_point": 0}} if op == "loadtype" else
+                           {"metadata": {"sampler_type": s.__class__.__name__}, "state": {"scale": 9, "not_a_state_key": 0}})
+                    with open(bad, "wb") as fh:
+                        pickle.dump(st_, fh)
+                    was_init = bool(s._is_initialized)
+                    try:
+                        s.load_checkpoint(bad)
+                        out.append("ok")
+                    except ValueError as e:
+                        if "does not match the type" in str(e):
+                            out.append("E:type")
+                        elif "not recognized in state dictionary" in str(e):
+                            out.append("E:key")
+                        else:
+                            raise
                 elif isinstance(op, tuple) and op[0] == "b":
                     bdir = clean_batch_dir(ckpath)
                     s.sample(op[1], batch_size=op[2], sample_path=bdir)
@@ -374,14 +401,25 @@ def _run(ctx, cuqi, M, thorough, rng, ckpath):
 
     n_toy = 400 if thorough else 120
     lines, cases = [], []
+    api_hist = {"init": 0, "loadtype": 0, "loadpart": 0, "badload": 0, "reinit": 0, "x0=None": 0, "scale=None": 0}
     for k in range(n_toy):
         dim = rng.choice([1, 2, 3])
         x0 = [rng.randint(-3, 3) for _ in range(dim)]
         scale = rng.randint(1, 3)
         stream = [rng.randint(-4, 6) for _ in range(90)]
-        ops = gen_program()
-        lines.append(f"exp toy {':'.join(map(str, x0))} {scale} {';'.join(op_str(o) for o in ops)} {','.join(map(str, stream))}")
+        api = k % 3 == 2          # a third of the programs exercise the guards / error branches of the base class
+        ops = gen_program(api)
+        if api and rng.random() < 0.3:
+            x0 = None             # no initial point given: np.ones(dim)
+        if api and rng.random() < 0.12:
+            scale = None          # `_validate_initialization` rejects the configuration
+        for o in ops:
+            if isinstance(o, str) and o in api_hist:
+                api_hist[o] += 1
+        api_hist["x0=None"] += int(x0 is None); api_hist["scale=None"] += int(scale is None)
+        lines.append(f"exp toy {'N%d' % dim if x0 is None else ':'.join(map(str, x0))} {'N' if scale is None else scale} {';'.join(op_str(o) for o in ops)} {','.join(map(str, stream))}")
         cases.append((dim, x0, scale, stream, ops))
+    ctx.extra_cov["base_class_api_ops"] = api_hist
     # float model of the tuning interval
     ti_cases = [(tf, nb) for tf in TFS + [0.2, 0.15, 0.35, 0.9, 1e-3] for nb in list(range(0, 41)) + [100, 1000, 12345]]
     for tf, nb in ti_cases:
@@ -401,7 +439,7 @@ def _run(ctx, cuqi, M, thorough, rng, ckpath):
     def toy_factory(dim, x0, scale, script):
         def mk(events, tunes):
             cb = lambda x, i: events.append((np.array(x, copy=True), int(i)))
-            s = Toy(dummy_targets[dim], scale=scale, script=script, initial_point=np.array(x0, dtype=np.int64), callback=cb)
+            s = Toy(dummy_targets[dim], scale=scale, script=script, initial_point=None if x0 is None else np.array(x0, dtype=np.int64), callback=cb)
             wrap_tune(s, tunes)
             return s
         return mk
@@ -416,7 +454,8 @@ def _run(ctx, cuqi, M, thorough, rng, ckpath):
             ctx.disagree(key, desc, out[:400], (got + (" " + err if err else ""))[:400], "base-class record keeping differs from the model")
             # property oracle on the real base class with this toy configuration
             script_f = lambda: Script(stream)
-            oracle_stateful(ctx, cuqi, key, "Toy", lambda cb, sc=None: Toy(dummy_targets[dim], scale=scale, script=sc, initial_point=np.array(x0, dtype=np.int64), callback=cb),
+            x0o, sco = (x0 if x0 is not None else [1] * dim), (scale if scale is not None else 1)
+            oracle_stateful(ctx, cuqi, key, "Toy", lambda cb, sc=None: Toy(dummy_targets[dim], scale=sco, script=sc, initial_point=np.array(x0o, dtype=np.int64), callback=cb),
                             6, 3, 0.5, ckpath, seed, script_factory=script_f)
             mirror_failure(ctx, key, desc)
     for (tf, nb), out in zip(ti_cases, outs[n_toy:]):
@@ -527,16 +566,22 @@ def _run(ctx, cuqi, M, thorough, rng, ckpath):
     NN = [(1, 0), (2, 0), (5, 0), (4, 3), (11, 2), (1, 1), (10, 0), (12, 5), (0, 0), (0, 2)]
     if thorough:
         NN += [(20, 7), (30, 0), (25, 25), (3, 9)]
+    adapt_hist = {}
     for cfg in lcfgs:
         tab = leg_tables.get(cfg["cls"], {})
         meth = cfg["method"]
         tagm = "sample" if meth == "sample" else "adapt"
         view = bool(tab.get(tagm + "PassesView")) and bool(tab.get("updateStoresThroughArg"))
         cbflag = int(tab.get(tagm + "Callbacks", 0)) >= 1
-        for (N, Nb) in NN:
+        # adaptive entry points: lengths whose adaptation interval int(0.1*N) is 2, 3, 4 (with N <= 19 it is 1 and
+        # "at every adaptation step" coincides with "at every transition")
+        NN_cfg = NN + ([(23, 4), (31, 0), (40, 10)] if meth == "sample_adapt" else [])
+        for (N, Nb) in NN_cfg:
             if not cfg["accepts"](N, Nb):
                 continue
             desc = {"sampler": cfg["name"], "method": meth, "N": N, "Nb": Nb}
+            if meth == "sample_adapt":
+                adapt_hist[int(0.1 * N)] = adapt_hist.get(int(0.1 * N), 0) + 1
             ctx.case("legacy-run", desc, nontrivial=(N + Nb >= 2))
             res = run_legacy(cfg, N, Nb, seed)
             keyb = f"legacy:{cfg['name']}:{meth}"
@@ -557,7 +602,7 @@ def _run(ctx, cuqi, M, thorough, rng, ckpath):
             lmeta.append((keyb, desc, impl))
     # callbacks that are valid but unusual callables (falsy objects, bound methods, partials), with and without burn-in
     for cfg in lcfgs:
-        for (N, Nb) in ([(11, 2)] if cfg["accepts"](11, 2) else []) + ([(4, 0)] if cfg["accepts"](4, 0) else []):
+        for (N, Nb) in ([(11, 2)] if cfg["accepts"](11, 2) else []) + ([(4, 0)] if cfg["accepts"](4, 0) else []) + ([(23, 4)] if cfg["method"] == "sample_adapt" else []):
             keyb = f"legacy:{cfg['name']}:{cfg['method']}"
             for fname, fcb, flog in callback_forms():
                 desc = {"sampler": cfg["name"], "method": cfg["method"], "N": N, "Nb": Nb, "callback": fname}
@@ -647,6 +692,7 @@ def _run(ctx, cuqi, M, thorough, rng, ckpath):
                     ctx.fail(keyb + ":tie", desc, f["demanded"], f["got"], f["what"])
                     break
     ctx.extra_cov["stateless_configs"] = sorted({c["name"] + "." + c["method"] for c in lcfgs})
+    ctx.extra_cov["legacy_adaptation_interval_hist"] = {str(k): v for k, v in sorted(adapt_hist.items())}
 
     # ========================================================================= Gibbs samplers
     gibbs_checks(ctx, cuqi, M, L, T, thorough, seed)
@@ -1120,42 +1166,83 @@ def oracle_stateful(ctx, cuqi, keyb, clsname, mk, N, K, tf, ckpath, seed, script
                  f"position {p}: first difference at continuation index {first_diff(cc, tail)}",
                  "checkpoint/resume into a freshly constructed sampler of the same configuration diverges", {"position": p})
 
-    # ---- reinitialize returns to the constructed configuration
+    # ---- reinitialize returns to the constructed configuration: a sampler that was run and is then re-initialised
+    #      under some random stream must have the state, history, constructor configuration and subsequent chain of
+    #      a freshly constructed sampler of the same configuration initialised under that same stream (nothing is
+    #      reseeded between (re)initialisation and the sampling that follows, so a difference in the random numbers
+    #      the initialisation consumes shows as well)
     try:
+        import copy as _copy
+        nre = min(N, 4)
+
+        def restream(s_):
+            if scripted:
+                s_.script = script_factory()
+            else:
+                reseed(seed + 23)
+
         f, scf = start(None)
+        restream(f)
         f.initialize()
-        st_f = f.get_state()["state"]; hist_f = f.get_history()["history"]
+        st_f = _copy.deepcopy(f.get_state()["state"]); hist_f = _copy.deepcopy(f.get_history()["history"]); cfg_f = _copy.deepcopy(_ctor_config(f))
+        f.sample(nre); cf = chain(f)
         g, scg = start(None)
         if K:
             g.warmup(K, tune_freq=tf)
         g.sample(min(N, 3))
-        if scripted:
-            pass
-        else:
-            reseed(seed)
+        restream(g)
         g.reinitialize()
-        st_g = g.get_state()["state"]; hist_g = g.get_history()["history"]
-        bad = [k for k in st_f if not _val_equal(st_f[k], st_g.get(k, "<missing>"))]
+        st_g = _copy.deepcopy(g.get_state()["state"]); hist_g = _copy.deepcopy(g.get_history()["history"]); cfg_g = _copy.deepcopy(_ctor_config(g))
+        bad = [k for k in st_f if not _val_equal(st_f[k], st_g.get(k, "<missing>"))] + [k for k in st_g if k not in st_f]
         badh = [k for k in hist_f if not _hist_equal(hist_f[k], hist_g.get(k, "<missing>"))]
-        if bad or badh or set(st_f) != set(st_g):
-            fail("reinitialize", "state and history of a freshly initialised sampler", {"state_keys_differing": bad, "history_keys_differing": badh},
-                 "reinitialize does not return the sampler to its constructed configuration")
-        else:
-            # and it then produces the chain a fresh sampler produces
-            if scripted:
-                g.script = script_factory(); f.script = script_factory()
-            else:
-                reseed(seed + 5)
-            g.sample(min(N, 4)); cg = chain(g)
-            if not scripted:
-                reseed(seed + 5)
-            f.sample(min(N, 4)); cf = chain(f)
-            if not chains_equal(cg, cf):
-                fail("reinitialize", "re-initialised sampler behaves as a fresh one", f"first difference at {first_diff(cg, cf)}",
-                     "chain after reinitialize differs from a fresh sampler's")
+        # constructor parameters as read back from the sampler: after reinitialize = after initialize of a fresh one
+        badc = [k for k in cfg_f if k in cfg_g and not _val_equal(cfg_f[k], cfg_g[k])]
+        alld = sorted(set(bad) | set(badc))
+        opsd = {"ops": [f"warmup({K})" if K else "-", f"sample({min(N, 3)})", "reseed", "reinitialize()", f"sample({nre})",
+                        "vs freshly constructed: reseed, initialize(), sample"]}
+        if "max_depth" in alld and clsname == "NUTS":
+            # the listed finding (its own key); neutralised so that anything else still shows
+            fail("reinitialize:max_depth", "constructor value of max_depth after reinitialize", {"fresh": repr(cfg_f.get("max_depth")), "reinitialized": repr(cfg_g.get("max_depth"))},
+                 "reinitialize does not return max_depth to the value the sampler was constructed with", opsd)
+            alld = [k for k in alld if k != "max_depth"]
+            g.max_depth = f.max_depth
+        if alld or badh:
+            fail("reinitialize", "state, history and constructor configuration of a freshly initialised sampler",
+                 {"state_or_config_differing": alld, "history_keys_differing": badh,
+                  "values(fresh, reinitialized)": {k: [repr(cfg_f.get(k, st_f.get(k)))[:60], repr(cfg_g.get(k, st_g.get(k)))[:60]] for k in alld[:4]}},
+                 "reinitialize does not return the sampler to its constructed configuration", opsd)
+        g.sample(nre); cg = chain(g)
+        if not (alld or badh) and not chains_equal(cg, cf):
+            fail("reinitialize", "re-initialised sampler behaves as a freshly constructed one initialised from the same random stream",
+                 f"first difference at {first_diff(cg, cf)}", "chain after reinitialize differs from a fresh sampler's", opsd)
     except Exception as e:
         ctx.note(f"{keyb}: reinitialize check raised {repr(e)[:120]}")
     return ok
+
+
+def _ctor_config(s):
+    """constructor parameters (names from the __init__ signatures along the MRO) as read back from the sampler object;
+    only plain values (None, numbers, strings, numpy arrays) — targets, callbacks, proposals and other objects are skipped"""
+    import inspect
+    out = {}
+    for cls in type(s).__mro__:
+        init = cls.__dict__.get("__init__")
+        if init is None:
+            continue
+        try:
+            names = list(inspect.signature(init).parameters)
+        except (TypeError, ValueError):
+            continue
+        for n in names:
+            if n in ("self", "target", "callback", "kwargs", "args", "script") or n in out:
+                continue
+            try:
+                v = getattr(s, n)
+            except Exception:
+                continue
+            if v is None or isinstance(v, (bool, int, float, str, np.integer, np.floating, np.ndarray)):
+                out[n] = v
+    return out
 
 
 def _val_equal(a, b):
@@ -1369,6 +1456,9 @@ def gibbs_checks(ctx, cuqi, M, L, T, thorough, seed):
             continue
         if len(ref) != N:
             ctx.fail(keyb + ":length", desc, N, len(ref), "recorded chain does not have the requested length")
+        if len(sweeps) != N + Nb:
+            ctx.fail(keyb + ":burnin", desc, f"{Nb} + {N} sweeps: the chain is the last {N} states once {Nb} burn-in states are discarded", f"{len(sweeps)} sweeps",
+                     "the number of transitions is not burn-in + requested length (the burn-in discarded is not the one requested)")
         if len(sweeps) == N + Nb and not chains_equal(ref, sweeps[Nb:]):
             ctx.fail(keyb + ":consecutive", desc, "stored states = states after the sweeps, burn-in dropped", f"first difference at {first_diff(ref, sweeps[Nb:])}",
                      "stored Gibbs chain is not the sequence of consecutive states")
@@ -1466,11 +1556,80 @@ def gibbs_checks(ctx, cuqi, M, L, T, thorough, seed):
             ctx.fail(keyb + ":caller-array", desc, "initial_point arrays of the block samplers are not modified", "modified", "sampling wrote into the caller's initial_point array")
     except Exception as e:
         ctx.note(f"{keyb}: retained sequence raised {repr(e)[:140]}")
-    houts = ctx.lean.drive(hlines)
+    # ---- legacy Gibbs.sample(Ns, Nb) in full (warm-up array, refusal of a second warm-up, IndexError after an empty
+    #      first call): random programs of calls on one object vs `gibbsLegacyFull`
+    glf_cov = {"calls": 0, "with_warmup": 0, "errV": 0, "errI": 0, "zero_length": 0}
+    progs = [[(2, 2), (1, 0), (1, 1), (0, 0)], [(0, 2), (1, 0)], [(0, 0), (2, 0)], [(3, 0), (0, 3), (2, 0)]]
+    for _ in range(6 if not thorough else 40):
+        pr = []
+        for j in range(ctx.rng.randint(2, 4)):
+            pr.append((ctx.rng.choice([0, 1, 1, 2, 3, 4]), ctx.rng.choice([0, 0, 1, 2, 3]) if j == 0 or ctx.rng.random() < 0.25 else 0))
+        progs.append(pr)
+    for pr in progs:
+        desc = {"sampler": "Gibbs(legacy)", "ops": [f"sample({n}, {b})" for n, b in pr]}
+        ctx.case("legacy-gibbs-program", desc)
+        try:
+            reseed(seed + 9); g = mk_l()
+            names = g.par_names
+            sweeps = []
+            orig = g.step
+            def step(cur, g=g, orig=orig, sweeps=sweeps):
+                r = orig(cur)
+                sweeps.append(np.concatenate([np.asarray(r[p], dtype=float).ravel() for p in g.par_names]))
+                return r
+            g.step = step
+            res = []
+            for (n, b) in pr:
+                glf_cov["calls"] += 1; glf_cov["with_warmup"] += int(b > 0); glf_cov["zero_length"] += int(n == 0)
+                try:
+                    r = g.sample(n, b)
+                    w = g.samples_warmup
+                    res.append((lchain(r, names), None if b == 0 else
+                                [np.concatenate([np.asarray(w[p][:, i], dtype=float).ravel() for p in names]) for i in range(w[names[0]].shape[1])]))
+                except IndexError:
+                    res.append("errI"); glf_cov["errI"] += 1
+                except ValueError:
+                    res.append("errV"); glf_cov["errV"] += 1
+        except Exception as e:
+            ctx.note(f"gibbs:Gibbs(legacy): program {desc['ops']} raised {repr(e)[:140]}")
+            continue
+        ids = Ids()
+        stream = [ids(x) + 1 for x in sweeps]
+        fm = lambda c: ",".join(str(ids(x) + 1) for x in c) or "_"
+        impl = "#".join(r if isinstance(r, str) else f"C={fm(r[0])};W={'-' if r[1] is None else fm(r[1])}" for r in res)
+        hlines.append(f"glf {';'.join(f's{n}b{b}' for n, b in pr)} 0 {','.join(map(str, stream)) or '_'}")
+        hmeta.append(("gibbs:Gibbs(legacy):program", desc, impl))
+    ctx.extra_cov["legacy_gibbs_programs"] = glf_cov
+    # ---- the inside of HybridGibbs: the real class on harness-defined block samplers vs Model/C14_gibbs.lean
+    from harness.props import c14_gibbs as HT
+    ht_classes = HT.make_classes(M)
+    ht_cfgs = [HT.gen_config(ctx.rng) for _ in range(60 if not thorough else 400)]
+    ht_lines = [HT.line_of(c) for c in ht_cfgs]
+    houts_all = ctx.lean.drive(hlines + ht_lines)
+    houts, ht_outs = houts_all[:len(hlines)], houts_all[len(hlines):]
+    ht_cov = {"blocks": {}, "nuts_blocks": 0, "default_initial_point": 0, "num_sampling_steps": {}, "already_initialized": 0, "ops": {"s": 0, "w": 0}}
+    for cfg_, out in zip(ht_cfgs, ht_outs):
+        desc = {"sampler": "HybridGibbs(ToyBlock)", "blocks": [{k: v for k, v in b.items()} for b in cfg_["blocks"]],
+                "ops": [HT.op_str(o) for o in cfg_["ops"]], "stream": cfg_["stream"][:30]}
+        ctx.case("hybrid-toy-program", desc)
+        ht_cov["blocks"][str(len(cfg_["blocks"]))] = ht_cov["blocks"].get(str(len(cfg_["blocks"])), 0) + 1
+        for b in cfg_["blocks"]:
+            ht_cov["nuts_blocks"] += int(b["nuts"]); ht_cov["default_initial_point"] += int(b["x0"] is None); ht_cov["already_initialized"] += int(b["preinit"])
+            ht_cov["num_sampling_steps"][str(b["nsteps"])] = ht_cov["num_sampling_steps"].get(str(b["nsteps"]), 0) + 1
+        for o in cfg_["ops"]:
+            if o != "get":
+                ht_cov["ops"]["w" if isinstance(o, tuple) else "s"] += 1
+        got, err = HT.run_impl(cuqi, M, ht_classes, cfg_)
+        if got != out:
+            key = "gibbs:HybridGibbs:toy-blocks:program"
+            ctx.disagree(key, desc, out[:500], (got + (" " + err if err else ""))[:500], "HybridGibbs on toy block samplers differs from the model of HybridGibbs.step / sample / warmup")
+            HT.oracle(cuqi, M, ht_classes, cfg_, lambda aspect, demanded, gotv, what, extra=None, desc=desc, key=key:
+                      ctx.fail(key, {**desc, **(extra or {}), "aspect": aspect}, demanded, gotv, what))
+    ctx.extra_cov["hybrid_toy_programs"] = ht_cov
     for (keyb, desc, impl), out in zip(hmeta, houts):
         ctx.case("gibbs-tie", desc, nontrivial=False)
         if impl != out:
             tkey = keyb + (":tie" if not keyb.endswith("split0") else "")
             ctx.disagree(tkey, desc, out[:200], impl[:200], "Gibbs storage / tuning calls differ from the model")
             if tkey != keyb:
-                mirror_failure(ctx, tkey, desc, prefix=keyb)
+                mirror_failure(ctx, tkey, desc, prefix=(keyb[:-len(":program")] if keyb.endswith(":program") else keyb))
